@@ -6,6 +6,9 @@
 #ifndef VF_CASE
 #define VF_CASE 0
 #endif
+#ifndef VF_KIND
+#define VF_KIND 0
+#endif
 #ifndef VF_K
 #define VF_K 1
 #endif
@@ -35,7 +38,7 @@ extern "C" void harness_ninja(void) {
   ninja::Command& cmd = *new ninja::Command(&rule, outs, ins, 0, 0);
   char c1 = (char)nondet_u8(), c2 = (char)nondet_u8(); bool gen = nondet_bool();
   cmd.setCommandString(llvm::StringRef(&c1, 1)); cmd.setGeneratorFlag(gen);
-  uint8_t kind = nondet_u8(); VF_ASSUME(kind < 3);   // successful, failed, skipped
+  const uint8_t kind = VF_KIND;   // successful, failed, skipped: one concrete value shape per query
   BuildValue& v = *new BuildValue(kind == 0 ? (K == 1 ? BuildValue::makeSuccessfulCommand(stored[0], CommandSignature(llvm::StringRef(&c2, 1))) : BuildValue::makeSuccessfulCommand(stored, K, CommandSignature(llvm::StringRef(&c2, 1))))
                                   : kind == 1 ? BuildValue::makeFailedCommand() : BuildValue::makeSkippedCommand());
   core::ValueType& data = *new core::ValueType(v.toValue());
@@ -46,7 +49,7 @@ extern "C" void harness_ninja(void) {
   VF_ASSERT(valid == expect, "a stored command result is valid exactly when the command succeeded, its command line is unchanged (generator rules excepted) and every output exists with unchanged file information");
 #else
   ninja::Node& node = *new ninja::Node("o0", "o0");
-  uint8_t kind = nondet_u8(); VF_ASSUME(kind < 2);
+  const uint8_t kind = VF_KIND;
   BuildValue& v = *new BuildValue(kind == 0 ? BuildValue::makeExistingInput(stored[0]) : BuildValue::makeMissingInput());
   core::ValueType& data = *new core::ValueType(v.toValue());
   bool valid = buildInputIsResultValid(&node, data);
